@@ -104,18 +104,16 @@ def gen_cases(rng, tier, escalate=False):
             c["probe_steps"] = None if k == 0 else sorted(rng.sample(range(0, 12), 4))
             c["mutations"] = ALL_MUTS if k == 0 else rng.sample(ALL_MUTS, 12)
             cases.append(c)
-    for _ in range((14 if q else 160) * mult):
+    for _ in range((14 if q else 400) * mult):
         prof = airgen.Profile(peers=3, depth=rng.choice([2, 3, 4]), streams=rng.random() < 0.6, canon=rng.random() < 0.5)
         script = airgen.gen_script(rng, prof)
         ops = airgen.gen_schedule(rng, n_ops=rng.choice([8, 14, 20]))
         cases.append(codes_case(rng, script, ops, 3 if q else 5, 8 if q else 12))
     # the directed scripts through the executor model as well (whole trace compared on every run)
     for s in DIRECTED:
-        if "(fold $s i (seq (ap i $s)" in s and q:
-            continue        # 1024 iterations inside Coq: thorough tier only
         cases.append({"driver": "exec", "script": s, "peers": airgen.PEERS[:3], "init": 0, "services": S,
                       "ops": airgen.fifo_schedule(8), "oracles": ["C02"], "seed": rng.randrange(1 << 30)})
-    for _ in range((8 if q else 80) * mult):
+    for _ in range((8 if q else 160) * mult):
         prof = airgen.Profile(peers=3, depth=rng.choice([3, 4]), streams=rng.random() < 0.5)
         c = exec_common.history_case(rng, prof, oracles=["C02"])
         c["driver"] = "exec"
